@@ -197,6 +197,9 @@ def run_property(spec: PropertySpec, tier: str, seed: int, reg: Registry) -> Run
         rep.seconds += res['seconds']
         run.verdicts.extend(res['verdicts'])
         run.used_lemmas = getattr(run, 'used_lemmas', set()) | res['used_lemmas']
+        run.callees = getattr(run, 'callees', set()) | res.get('callees', set())
+        run.model_ops = getattr(run, 'model_ops', set()) | res.get('model_ops', set())
+        run.pins = getattr(run, 'pins', set()) | res.get('pins', set())
         cc = run.cross.setdefault(q, {'inputs': 0, 'agreements': 0, 'disagreements': [], 'skipped': None, 'paths_hit': 0})
         for key in ('inputs', 'agreements', 'paths_hit'):
             cc[key] += res['cross'].get(key, 0)
@@ -278,13 +281,16 @@ def _case_worker(task):
             cc = crosscheck.crosscheck_function(rep, con, max(20, n), seed + k)
         except Exception as e:
             cc = {'disagreements': [], 'skipped': f'cross-check crashed: {type(e).__name__}: {e}'}
-        used = set()
+        used, callees, mops, pins = set(), set(), set(), set()
         for s_ in rep.summaries:
             if s_.ctx is not None:
                 used |= s_.ctx.used_lemmas
+                callees |= {c[0] for c in s_.ctx.ghost.get('calls', [])}
+                mops |= set(getattr(s_.ctx, 'used_model_ops', ()))
+                pins |= set(s_.ctx.used_expr_contracts)
         return {'file': rep.file, 'sha256': rep.sha256, 'lines': rep.lines, 'verdicts': rep.verdicts, 'paths': rep.paths, 'mode': ('S (skeleton / typestate)' if con.skeleton else 'P'),
                 'undecided': rep.undecided, 'dropped': rep.dropped, 'interpreted': rep.interpreted, 'seconds': rep.seconds,
-                'cross': cc, 'used_lemmas': used}
+                'cross': cc, 'used_lemmas': used, 'callees': callees, 'model_ops': mops, 'pins': pins}
     except Exception as e:
         return {'crash': f'{type(e).__name__}: {e}\n{traceback.format_exc()[-1500:]}'}
 
@@ -506,7 +512,13 @@ def finish(run: Run, evidence_path: str, checker_cmd: str) -> int:
     for v in run.verdicts:
         by_backend[v.backend] = by_backend.get(v.backend, 0) + 1
     solver_s = sum(v.seconds for v in run.verdicts)
-    trusted = sorted(f'{k}: {LIB_DOC.get(k, "")}' for k in _used_lib(run)) + sorted(run.trusted)
+    import re as _re2
+    meths = {op.split('.', 1)[1] for op in getattr(run, 'model_ops', set()) if '.' in op}
+    doc_keys = set(_used_lib(run))
+    for k_ in LIB_DOC:
+        if any(_re2.search(r'(?<![A-Za-z_])' + _re2.escape(m_) + r'(?![A-Za-z_])', k_) for m_ in meths):
+            doc_keys.add(k_)
+    trusted = sorted(f'{k}: {LIB_DOC.get(k, "")}' for k in doc_keys) + sorted(run.trusted)
     dropped = {}
     for rep in run.reports.values():
         for k in rep.dropped.__dataclass_fields__:
@@ -530,6 +542,13 @@ def finish(run: Run, evidence_path: str, checker_cmd: str) -> int:
             {'function': q, 'file': os.path.relpath(rep.file, '/repo') if rep.file.startswith('/repo') else rep.file,
              'sha256': rep.sha256, 'lines': list(rep.lines), 'mode': rep.mode, 'paths': rep.paths,
              'bodies_interpreted': sorted(rep.interpreted)} for q, rep in run.reports.items()],
+        # contracts of callees applied at call sites (modular use) whose bodies are NOT verified in this check: assumed here
+        'assumed_callee_contracts': [
+            {'function': q, 'note': (getattr(run.reg.get(q), 'notes', '') or 'verified against its body in the check(s) of: '
+                                     + ', '.join(getattr(run.reg.get(q), 'properties', ()) or ['-']))[:400]}
+            for q in sorted(getattr(run, 'callees', set())) if q not in run.reports],
+        'pinned_expression_contracts': sorted(getattr(run, 'pins', set())),
+        'library_model_operations_used': sorted(getattr(run, 'model_ops', set())),
         'functions_under_frame_contract': sorted(run.frame_functions),
         'frame_analysis_s': round(run.frame_seconds, 3),
         'lemmas': list(spec.lemmas),
